@@ -37,7 +37,7 @@ Section RESP.
   Variable fo : string -> string -> json -> option bool.
 
   Definition resp_settings (o : vopts) (asrep : bool) : settings :=
-    mkSt false (v_multi o) false asrep false (v_excl_wo o).
+    mkSt false (v_multi o) false asrep false (v_excl_wo o) asrep.   (* bodies are decoded with UseNumber, headers are not *)
 
   Definition header_check (o : vopts) (h : hdr) : rres :=
     match h_schema h with
